@@ -17,7 +17,7 @@ def check(pid):
 
 
 # thorough tiers that finished in well under two minutes are deepened by these factors
-THOROUGH_DEPTH = {"C01": 4, "C02": 4, "C04": 4, "C05": 2, "C06": 2, "C09": 3, "C10": 4, "C13": 6, "C14": 3, "C15": 4, "C16": 5, "C17": 5, "C19": 5, "C11": 2, "C03": 2}
+THOROUGH_DEPTH = {"C01": 12, "C02": 12, "C04": 12, "C05": 4, "C06": 4, "C09": 6, "C10": 12, "C13": 12, "C14": 6, "C15": 6, "C16": 20, "C17": 15, "C19": 10, "C11": 4, "C03": 3, "C07": 2}
 
 
 def n(out, quick, thorough):
@@ -600,7 +600,7 @@ def _thr_run(out, exe, vname, reps, tool, shards=4, wrapper=(), threads=16, time
 def c18(out):
     out.rule = ("repetition index -> workload (distinct objects / shared read-only key schedules and parallel-ECB objects / init+cleanup storm) x back-end cap; 16 threads released by a barrier run generated CTR and parallel "
                 "histories, reads on shared schedules, or init/use/cleanup loops with random yields and sleeps between calls; oracles: ThreadSanitizer (gcc, thorough: clang; helgrind on the shipped build) must print no report, "
-                "and every thread's transcript must equal the transcript of the same work computed sequentially beforehand; additionally fresh processes make their very first library calls (incl. the CPU probe) from 16 threads at once. Evidence counts threads simultaneously inside library calls and distinct interleaving signatures. "
+                "and every thread's transcript must equal the transcript of the same work computed sequentially beforehand; additionally fresh processes make their very first library calls (incl. the CPU probe) from 16 threads at once, and a single-threaded monitor runs parallel-ECB histories with the object's heap state mprotect'ed read-only during every encrypt/decrypt/crypt call (a write faults). Evidence counts threads simultaneously inside library calls and distinct interleaving signatures. "
                 "distinct = distinct repetition contents (history hashes / seeds).")
     # positive control: the detector must see a deliberate race
     exe = build_driver("drv_thr", ["drv_thr.c"] + HIST, "tsan", libs=["-pthread"])
@@ -623,6 +623,9 @@ def c18(out):
         exe = build_driver("drv_thr", ["drv_thr.c"] + HIST, "prod", libs=["-pthread"])
         _thr_run(out, exe, "prod", n(out, 600, 600), "plain", shards=4)
         _thr_first_init(out, exe, "prod", n(out, 48, 48), tool="plain")
+    # read-only monitor: the heap state of parallel-ECB objects is PROT_READ while encrypt/decrypt/crypt run on it
+    exe = build_driver("drv_life", ["drv_life.c", "allocmon.c"] + HIST, "prod", extra=WRAP)
+    run_sharded(out, exe, ["--prop", "C18", "--mode", "c15"], "prod", n(out, 1200, 40000), label="read-only-object-state")
     if out.maxima.get("max_threads_simultaneously_inside_library_calls", 0) < 2:
         out.inconclusive.append({"reason": "threads never overlapped inside library calls"})
     out.assumptions += ["interleavings are sampled, not enumerated; TSan's happens-before analysis reports a conflicting unsynchronised access pair whenever the two accesses are not ordered, without needing the exact racy timing",
